@@ -40,10 +40,13 @@ def run_case(case):
         return out
     t0 = time.time()
     try:
+        import objs as _objs
+        del _objs.WATCH[:]
         with sym.patched():
             try:
                 r = case.run()
                 exc = None
+                _objs.check_watched()
             except TraceEscape:
                 raise
             except Exception as e:  # the real code raised: an Err outcome
